@@ -115,6 +115,16 @@ fn run_variant<const N: usize, P: Pad>(
             lab.map.entry(*m).or_insert_with(|| format!("m{}.{}", si, j));
         }
         let _ = before_next;
+        for (k, id) in out.events.iter().zip(out.event_ids.iter()) {
+            if *id == dead_id || *id == live_tok.id || k.starts_with("garbage_touched") {
+                let c = ctx.cur_case.clone();
+                ctx.violation(
+                    "C04",
+                    format!("op={}|ncap={}|filling={:?}|touched_injected_copy:{}", o.name(), ncls(N), std::mem::discriminant(&filling), k.split('@').next().unwrap_or("")),
+                    format!("{:?} touched the {} planted in an unoccupied slot ({}); case={}", o, if *id == dead_id { "byte-copy of a destroyed element" } else if *id == live_tok.id { "byte-copy of a live element held elsewhere" } else { "garbage bytes" }, k, c),
+                );
+            }
+        }
         let cont: Vec<String> = out.post.iter().map(|(id, v)| format!("{}={}", lab.label(*id), v)).collect();
         trace.push(format!("{}|{}|[{}]|ev{:?}", o.name(), lab.ret(&out.ret), cont.join(","), out.events));
     }
@@ -123,11 +133,20 @@ fn run_variant<const N: usize, P: Pad>(
     // the live image's original must not have been destroyed through its copy
     if !ledger_is_live(live_tok.id) {
         trace.push("LIVECOPY-destroyed".into());
+        let c = ctx.cur_case.clone();
+        ctx.violation("C04", format!("op={}|ncap={}|live_copy_destroyed", op.name(), ncls(N)), format!("the byte-copy of a live element planted in an unoccupied slot was destroyed through the buffer; case={}", c));
     }
+    let live_id = live_tok.id;
     drop(live_tok);
-    let evs = flush_events(ctx, op.name(), N, "after_case", None);
+    let evs = flush_events_ids(ctx, op.name(), N, "after_case", None);
     if !evs.is_empty() {
-        trace.push(format!("late-events{:?}", evs));
+        trace.push(format!("late-events{:?}", evs.iter().map(|x| &x.0).collect::<Vec<_>>()));
+        for (k, id) in &evs {
+            if *id == dead_id || *id == live_id {
+                let c = ctx.cur_case.clone();
+                ctx.violation("C04", format!("op={}|ncap={}|touched_injected_copy:{}", op.name(), ncls(N), k), format!("an injected byte-copy was destroyed through the buffer ({}); case={}", k, c));
+            }
+        }
     }
     Some((trace, poked))
 }
@@ -145,7 +164,6 @@ pub fn nonint<const N: usize, P: Pad>(ctx: &mut Ctx) {
     if N > 0 && geo.is_none() {
         ctx.notes.push(format!("geometry self-check failed for N={} T={}: garbage poking disabled, only natural stale bytes are exercised", N, P::NAME));
     }
-    ctx.attribute = Some("C04");
     for len in 0..=N {
         let mut ops = op_list(N, len, thorough);
         // the drain variants with Debug of the live drain, and leaked drains
@@ -207,7 +225,6 @@ pub fn nonint<const N: usize, P: Pad>(ctx: &mut Ctx) {
                                         Filling::LiveCopy => "live_copy",
                                     };
                                     let c = ctx.cur_case.clone();
-                                    ctx.attribute = None;
                                     ctx.violation(
                                         "C04",
                                         format!("op={}|ncap={}|filling={}|trace_differs", op.name(), ncls(N), fcls),
@@ -220,7 +237,6 @@ pub fn nonint<const N: usize, P: Pad>(ctx: &mut Ctx) {
                                             c
                                         ),
                                     );
-                                    ctx.attribute = Some("C04");
                                 }
                             }
                         }
@@ -257,5 +273,4 @@ pub fn nonint<const N: usize, P: Pad>(ctx: &mut Ctx) {
             }
         }
     }
-    ctx.attribute = None;
 }
